@@ -37,22 +37,29 @@ theorem mkBin_nofold (op : BinOp) (l r : Ast)
 theorem binLevel (n : Nat) (L : Level) (below : List Level) (op : BinOp) (t f : Tok) (tsl tsr rest : List Tok) (xl xr : Ast)
     (hh : handlesK L t.k op = true)
     (hl : parseLv ladder (n + 1) below (tsl ++ t :: (tsr ++ f :: rest)) = .ok (xl, t :: (tsr ++ f :: rest)))
-    (hr : parseLv ladder n below (tsr ++ f :: rest) = .ok (xr, f :: rest))
+    (hr : parseLv ladder n (rightLevels L below) (tsr ++ f :: rest) = .ok (xr, f :: rest))
     (hnl : k1 (tsr ++ f :: rest) ≠ some .NEWLINE)
     (hm : mkBin op xl xr = .ok (.bin op xl xr))
     (hin : op = .IN → xr.isVar = true)
     (hstop : noContK L (some f.k) (k1 rest) = true) :
     parseLv ladder (n + 1) (L :: below) (tsl ++ t :: (tsr ++ f :: rest)) = .ok (.bin op xl xr, f :: rest) := by
   cases L with
-  | binary fn sk map =>
+  | binary fn sk ra map =>
     have hk : map.lookup t.k = some op := by simpa [handlesK] using hh
     have hs : map.lookup f.k = none := by simpa [noContK] using hstop
-    rw [parseLv, hl]; simp only []
-    rw [binLoop]; simp only [hk, skipNl_id sk _ hnl, hr, hm]
-    rw [binLoop]; simp only [hs]
+    cases ra
+    · simp only [rightLevels, isRassoc, Bool.false_eq_true, if_false] at hr
+      rw [parseLv, hl]; simp only []
+      rw [binLoop]; simp only [hk, skipNl_id sk _ hnl, Bool.false_eq_true, if_false, hr, hm]
+      rw [binLoop]; simp only [hs]
+    · simp only [rightLevels, isRassoc, if_true] at hr
+      rw [parseLv, hl]; simp only []
+      rw [binLoop]; simp only [hk, skipNl_id sk _ hnl, if_true, hr, hm]
+      rw [binLoop]; simp only [hs]
   | inLv =>
     have hk : t.k = .IN ∧ op = .IN := by simpa [handlesK] using hh
     have hs : f.k ≠ .IN := by simpa [noContK] using hstop
+    simp only [rightLevels, isRassoc, Bool.false_eq_true, if_false] at hr
     rw [parseLv, hl]; simp only []
     rw [inLoop.eq_def]; simp only [hk.1, hr, hin hk.2]
     rw [inLoop.eq_def]; simp [hs, hk.2]
@@ -60,6 +67,7 @@ theorem binLevel (n : Nat) (L : Level) (below : List Level) (op : BinOp) (t f : 
     have hk : t.k = concatTok ∧ op = .CONCAT := by simpa [handlesK] using hh
     have hs : (f.k == concatTok || isStarterK f.k) = false := by simpa [noContK] using hstop
     have hs' : (f.k == concatTok) = false ∧ isStarter f = false := by simpa [isStarter] using hs
+    simp only [rightLevels, isRassoc, Bool.false_eq_true, if_false] at hr
     rw [parseLv, hl]; simp only []
     rw [concatLoop.eq_def]; simp only [hk.1, hr, beq_self_eq_true, if_true]
     rw [concatLoop.eq_def]; cases n <;> simp [hs'.1, hs'.2, hk.2]
@@ -477,7 +485,10 @@ theorem case_bin (op : BinOp) (l r : Ast) (hwl : WFparse l) (hwr : WFparse r)
       apply climb ladder (m + 1) pre
       · apply binLevel m L (bp ++ [Level.incLv, Level.primLv]) op (binTok op) tRP (opnd l) (opnd r) rest (norm l) (norm r) hh
         · exact ol (m + 1) bp _ hll (by rw [k1_cons, k2_cons, er, List.cons_append, k1_cons]; exact hb2 tr.k hkr)
-        · exact or m bp _ hlr (by
+        · have e2 : rightLevels L bp ++ [Level.incLv, Level.primLv] = rightLevels L (bp ++ [Level.incLv, Level.primLv]) := by
+            simp only [rightLevels]; split <;> rfl
+          rw [← e2]
+          exact or m (rightLevels L bp) _ hlr (by
             rw [k1_cons, k2_cons, tRP_k, opOK_indep _ _ _ none (by decide) (by decide)]; exact hb3)
         · rw [er, List.cons_append, k1_cons]; intro h; exact start_not_newline _ hkr (by simpa using h)
         · exact mkBin_nofold op _ _ hnf
